@@ -877,17 +877,63 @@ Proof.
   apply issue_lemma in He. destruct He as (Hn & _). congruence.
 Qed.
 
+(** ** ids in use are well-formed *)
+Definition IdInv (s : state) : Prop :=
+  (forall c, get c (classes s) <> None -> 0 < c)
+  /\ (forall c t, get (c, t) (nfts s) <> None -> 0 < t).
+
+Lemma mint_token_ok s a c t n u h d r s' : mint s a c t n u h d r = Some s' -> 0 < t.
+Proof.
+  unfold mint. destruct (addr_ok a && addr_ok r && denom_ok c && uri_ok u && json_or_empty d && token_ok t) eqn:Hv; [|discriminate].
+  intros _. apply andb_prop in Hv. destruct Hv as [_ Ht]. apply Z.ltb_lt. exact Ht.
+Qed.
+
+Lemma IdInv_step s msg s' : IdInv s -> exec_msg s msg = Some s' -> IdInv s'.
+Proof.
+  intros [Hc Ht] He.
+  destruct msg as [a c0 mr ur d0 o0|a c0 t0 n u h d r|a c0 t0 n u h d|a c0 t0 n u h d r|a c0 t0|a c0 r]; simpl in He.
+  - apply issue_ok in He. destruct He as (Hpos & _ & _ & ->). split; [|exact Ht].
+    intros c. simpl. rewrite get_set. destruct (eq_dec c c0) as [->|_]; [intros _; exact Hpos|apply Hc].
+  - pose proof (mint_token_ok _ _ _ _ _ _ _ _ _ _ He) as Hpos.
+    apply mint_ok in He. destruct He as (cl & _ & _ & _ & _ & _ & ->). split; [exact Hc|].
+    intros c t. simpl. rewrite get_set. destruct (eq_dec (c, t) (c0, t0)) as [Heq|_]; [|apply Ht].
+    inversion Heq; subst. intros _. exact Hpos.
+  - apply edit_ok in He. destruct He as (cl & _ & _ & _ & [[_ ->]|(m0 & Hm0 & ->)]); [split; assumption|].
+    split; [exact Hc|]. intros c t. simpl. rewrite get_set. destruct (eq_dec (c, t) (c0, t0)) as [Heq|_]; [|apply Ht].
+    inversion Heq; subst. intros _. apply (Ht c0 t0). congruence.
+  - apply transfer_ok in He. destruct He as (cl & m0 & _ & Hm0 & _ & _ & _ & [[_ ->]| ->]); [split; assumption|].
+    split; [exact Hc|]. intros c t. simpl. rewrite get_set. destruct (eq_dec (c, t) (c0, t0)) as [Heq|_]; [|apply Ht].
+    inversion Heq; subst. intros _. apply (Ht c0 t0). congruence.
+  - apply burn_ok in He. destruct He as (_ & _ & ->). split; [exact Hc|].
+    intros c t. simpl. rewrite get_del. destruct (eq_dec (c, t) (c0, t0)); [congruence|apply Ht].
+  - apply handover_ok in He. destruct He as (cl & Hc0 & _ & _ & ->). split; [|exact Ht].
+    intros c. simpl. rewrite get_set. destruct (eq_dec c c0) as [->|_]; [|apply Hc].
+    intros _. apply Hc. congruence.
+Qed.
+
+Lemma Reachable_IdInv s : Reachable s -> IdInv s.
+Proof.
+  intros [steps ->]. assert (H0 : IdInv init) by (split; intros; simpl in *; congruence).
+  revert H0. generalize init. induction steps as [|st rest IH]; intros s0 H0; simpl; [exact H0|].
+  apply IH. destruct (next_cases s0 st) as [[-> _]|(msg & s' & _ & He & -> & _)]; [exact H0|].
+  exact (IdInv_step s0 msg s' H0 He).
+Qed.
+
 (** ** the owner is never locked out *)
 Lemma owner_can_act s c t o : Reachable s ->
-  get_owner s c t = Some o -> denom_ok c = true -> token_ok t = true ->
+  get_owner s c t = Some o ->
   (exists s', exec_msg s (Burn o c t) = Some s')
   /\ (forall r, 0 <= r -> exists s', exec_msg s (Transfer o c t dnm dnm dnm dnm r) = Some s').
 Proof.
-  intros Hr Ho Hd Ht. apply Reachable_Inv in Hr. destruct Hr as (_ & _ & Hiff & _ & _ & Hcls & Hrng).
+  intros Hr Ho. pose proof (Reachable_IdInv s Hr) as [Hidc Hidt].
+  apply Reachable_Inv in Hr. destruct Hr as (_ & _ & Hiff & _ & _ & Hcls & Hrng).
   unfold get_owner in Ho.
   assert (Ha : addr_ok o = true) by (apply addr_ok_spec; apply (Hrng (c, t)); exact Ho).
   assert (Hn : get (c, t) (nfts s) <> None) by (apply Hiff; congruence).
   assert (Hc : get c (classes s) <> None) by (apply (Hcls c t); exact Hn).
+  assert (Hd : denom_ok c = true).
+  { unfold denom_ok. apply Bool.negb_true_iff, Z.eqb_neq. specialize (Hidc c Hc). lia. }
+  assert (Ht : token_ok t = true) by (apply Z.ltb_lt; apply (Hidt c t); exact Hn).
   assert (Hau : authorize s c t o = true) by (apply authorize_spec; exact Ho).
   assert (Hhc : has_class s c = true) by (apply has_true; exact Hc).
   assert (Hhn : has_nft s c t = true) by (apply has_true; exact Hn).
